@@ -1,6 +1,105 @@
-//! C25: not implemented yet.
+//! C25: settings updates.  case: {"op": ...}
+//!  tree_merge {target, overlay, depth}      -> {r:"ok", v}
+//!  tree_set   {target, path, value}         -> {r:"ok"|"err", v}
+//!  tree_get   {target, path}                -> {r:"some", v} | {r:"none"}
+//!  parse      {text, format}                -> {r:"ok", v} | {r:"err", kind}
+//!  project    {value}                       -> {r:"ok", v} | {r:"err", kind, stage}
+//!  settings   {steps:[{k, ...}]}            -> {r:"ok", steps:[{res, kind?, before, after, get?}]}
+use c2pa::settings::{
+    verif_get_at_path, verif_merge_json_depth, verif_parse_to_value, verif_set_at_path, verif_validate, Settings,
+};
 use serde_json::{json, Value};
 
-pub fn run(_case: &Value) -> Value {
-    json!({"r": "unimplemented"})
+use crate::util::*;
+
+fn sval(s: &Settings) -> Value {
+    serde_json::to_value(s).unwrap_or(Value::Null)
+}
+
+fn res(r: &c2pa::Result<()>) -> Value {
+    match r {
+        Ok(()) => json!({"res": "ok"}),
+        Err(e) => json!({"res": "err", "kind": err_class(e), "detail": format!("{}", e).chars().take(160).collect::<String>()}),
+    }
+}
+
+pub fn run(case: &Value) -> Value {
+    match case["op"].as_str().unwrap_or("") {
+        "tree_merge" => {
+            let depth = case["depth"].as_u64().unwrap_or(0) as usize;
+            let v = verif_merge_json_depth(case["target"].clone(), case["overlay"].clone(), depth);
+            json!({"r": "ok", "v": v})
+        }
+        "tree_set" => {
+            let (v, r) = verif_set_at_path(case["target"].clone(), case["path"].as_str().unwrap_or(""), case["value"].clone());
+            json!({"r": if r.is_ok() { "ok" } else { "err" }, "v": v})
+        }
+        "tree_get" => match verif_get_at_path(&case["target"], case["path"].as_str().unwrap_or("")) {
+            Some(v) => json!({"r": "some", "v": v}),
+            None => json!({"r": "none"}),
+        },
+        "parse" => match verif_parse_to_value(case["text"].as_str().unwrap_or(""), case["format"].as_str().unwrap_or("json")) {
+            Ok(v) => json!({"r": "ok", "v": v}),
+            Err(e) => json!({"r": "err", "kind": err_class(&e)}),
+        },
+        "project" => match serde_json::from_value::<Settings>(case["value"].clone()) {
+            Err(_) => json!({"r": "err", "stage": "typed"}),
+            Ok(s) => match verif_validate(&s) {
+                Err(e) => json!({"r": "err", "stage": "validate", "kind": err_class(&e)}),
+                Ok(()) => json!({"r": "ok", "v": sval(&s)}),
+            },
+        },
+        "settings" => {
+            let mut cur = Settings::new();
+            let mut out = vec![];
+            for st in case["steps"].as_array().cloned().unwrap_or_default() {
+                let before = sval(&cur);
+                let k = st["k"].as_str().unwrap_or("");
+                let text = st["text"].as_str().unwrap_or("");
+                let path = st["path"].as_str().unwrap_or("");
+                let mut o = match k {
+                    "with_json" | "with_toml" => {
+                        let r = if k == "with_json" { cur.with_json(text) } else { cur.with_toml(text) };
+                        let untouched = sval(&cur) == before;
+                        let mut o = match r {
+                            Ok(n) => {
+                                cur = n;
+                                json!({"res": "ok"})
+                            }
+                            Err(e) => res(&Err(e)),
+                        };
+                        o["receiver_untouched"] = json!(untouched);
+                        o
+                    }
+                    "update" => res(&cur.update_from_str(text, st["format"].as_str().unwrap_or("json"))),
+                    "with_value" => {
+                        let r = cur.with_value(path, st["value"].clone());
+                        let untouched = sval(&cur) == before;
+                        let mut o = match r {
+                            Ok(n) => {
+                                cur = n;
+                                json!({"res": "ok"})
+                            }
+                            Err(e) => res(&Err(e)),
+                        };
+                        o["receiver_untouched"] = json!(untouched);
+                        o
+                    }
+                    "set_value" => res(&cur.set_value(path, st["value"].clone())),
+                    _ => json!({"res": "bad-step"}),
+                };
+                if k == "with_value" || k == "set_value" {
+                    o["get"] = match cur.get_value::<Value>(path) {
+                        Ok(v) => json!({"r": "ok", "v": v}),
+                        Err(e) => json!({"r": "err", "kind": err_class(&e)}),
+                    };
+                }
+                o["before"] = before;
+                o["after"] = sval(&cur);
+                out.push(o);
+            }
+            json!({"r": "ok", "steps": out})
+        }
+        _ => json!({"r": "bad-op"}),
+    }
 }
